@@ -145,6 +145,7 @@ pub fn profile() -> Profile {
     let mut p = Profile::general();
     p.net_w = [45, 25, 15, 15, 0, 0, 0, 0, 0];
     p.p_mut = 50;
+    p.heavy_bias = true;
     p
 }
 
